@@ -78,6 +78,9 @@ def confirm(srcdir, sid, prop):
         if o["rc"] == 0 and "OK" in (o["out"] or "") and c["rc"] not in (0, None):
             verdict = "NDEBUG" if ndebug else "assert"
             break
+        if o["rc"] == 0 and "OK" in (o["out"] or "") and c["rc"] is None and "error" in (c["out"] or ""):
+            verdict = "NDEBUG" if ndebug else "assert"      # compile-time breakage: the demonstration no longer compiles against the changed headers
+            break
     sh("git -C %s checkout -- ." % WT)
     ok = built and tests_ok and verdict is not None and not outside
     print("seed %s: build=%s tests=%s demo=%s outside=%r" % (sid, built, t.stdout.strip().splitlines()[0] if t.stdout.strip() else "?", verdict, outside))
